@@ -544,6 +544,20 @@ class TNoneT(Ty):
 
 
 TNone = TNoneT()
+# range(start, stop, step) as a value (only its three parameters are modelled; iteration over one is eval_iter's job)
+TRange = TRec("range", {"start": TInt, "stop": TInt, "step": TInt},
+              to_py=lambda d: range(d["start"], d["stop"], d["step"] or 1),
+              from_py=lambda r: {"start": r.start, "stop": r.stop, "step": r.step})
+
+
+def slice_zero_step_fn():
+    """slice.indices raises ValueError for a slice whose step is 0 (an uninterpreted predicate of the slice)."""
+    return z3.Function("slice.step-is-zero", TSlice.sort(), z3.BoolSort())
+
+
+def slice_indices_fn(i: int):
+    """The i-th component of slice.indices(n) as an uninterpreted function of (slice, n)."""
+    return z3.Function(f"slice.indices#{i}", TSlice.sort(), z3.IntSort(), z3.IntSort())
 VNone = Val(TNone, z3.BoolVal(True))
 
 
